@@ -31,7 +31,15 @@ FieldTypes1 ==
   \cup {FOpt(FVec(FS("i32"))), FVec(FOpt(FS("str"))), FMap(FVec(FS("i64"))), FVec(FVec(FS("u8"))), FOpt(FBox(FS("i32"))),
         FBox(FOpt(FS("str"))), FVec(FMap(FS("bool"))), FOpt(FMap(FS("i32"))), FVec(FS("u64")), FMap(FS("u128"))}
   \cup {FArr(0, FS("i32")), FArr(1, FS("i32")), FArr(2, FS("i32")), FArr(3, FS("str")), FArr(2, FS("bool")), FArr(1, FOpt(FS("i64")))}
+FDur == [f |-> "stdduration"]
+(* std::time::Duration is a record that itself contains the named fixed u64: every order of first uses *)
+DurShapes == { <<Fld0(W("a"), FDur), Fld0(W("b"), FS("i32"))>>,
+               <<Fld0(W("a"), FS("u64")), Fld0(W("b"), FDur)>>,
+               <<Fld0(W("a"), FDur), Fld0(W("b"), FS("u64"))>>,
+               <<Fld0(W("a"), FDur), Fld0(W("b"), FOpt(FDur))>>,
+               <<Fld0(W("a"), FVec(FS("u64"))), Fld0(W("b"), FOpt(FDur)), Fld0(W("c"), FS("u64"))>> }
 G1 == {S1(<<StructD("Rec", <<Fld0(W("a"), ft), Fld0(MyField, FS("i32"))>>)>>) : ft \in FieldTypes1}
+GD == {S1(<<StructD("Rec", fs)>>) : fs \in DurShapes}
 
 (* ---- G2: container attributes on a struct ---- *)
 Base2 == StructD("Rec", <<Fld0(VTasty, FS("i32")), Fld0(W("id"), FS("str")), Fld0(W("z42"), FOpt(FS("i64")))>>)
@@ -177,7 +185,7 @@ G7 ==
     NestIn(FVec(FNamed("Trans")), <<[StructD("Trans", <<Fld0(W("inner"), FNamed("Color"))>>) EXCEPT !.transparent = TRUE], Plain>>) }
 
 Tag(S, g) == {[defs |-> sc.defs, root |-> sc.root, grp |-> g] : sc \in S}
-Scenarios == Tag(G1, "G1") \cup Tag(G2, "G2") \cup Tag(G3, "G3") \cup Tag(G4, "G4") \cup Tag(G5, "G5")
+Scenarios == Tag(GD, "GD") \cup Tag(G1, "G1") \cup Tag(G2, "G2") \cup Tag(G3, "G3") \cup Tag(G4, "G4") \cup Tag(G5, "G5")
              \cup Tag(G6, "G6") \cup Tag(G7, "G7")
 
 (* ---- values ---- *)
